@@ -804,6 +804,7 @@ def run (ctx):
   from . import c15b
   c15b.run(ctx, repo, mods, tp, tp_fallback)
   c14._option_packers(ctx, repo)      # serialisers of nested structures: definite type conflicts, cursor/field agreement (shared with C14)
+  ctx.include('C14', ['ipv4.parse', 'ipv6.parse'], "the parse result can always be re-serialised: what a parser leaves as the next layer must be packable (C14's rules about unparsed next-layer objects)")
   # ---- D5 parser loops ----------------------------------------------------------------------------------------
   n_loops = 0
   for qual in local:
